@@ -823,6 +823,18 @@ fn mode_witness_worm() {
     kern_case(&m, 0.5, false, 2, true);
 }
 
+fn mode_witness_asym() {
+    // worm selection asymmetry: triangle 0-1-2 plus pendant spin 3, J = 1, no biases
+    let m = Model { edges: vec![((0, 1), 1.0), ((1, 2), 1.0), ((2, 0), 1.0), ((2, 3), 1.0)], biases: vec![0.0; 4] };
+    kern_case(&m, 0.5, false, 2, true);
+}
+
+fn mode_witness_noedges() {
+    // a graph without edges (biases only): the edge move draws gen_range(0..0)
+    let m = Model { edges: vec![], biases: vec![0.5, -0.25] };
+    traj_case(&m, 1.0, false, None, None, None, true, &[false, true], 1, vec![u8_word(1, 2)], 7);
+}
+
 fn mode_witness_imp() {
     // F13: importance sampling on graphs whose signed J sum is <= 0
     for edges in [vec![((0usize, 1usize), -1.0)], vec![((0, 1), 1.0), ((1, 2), -1.0)], vec![((0, 1), -1.0), ((1, 2), -0.5), ((2, 0), 1.0)]] {
@@ -851,6 +863,8 @@ fn main() {
         "search-worm" => mode_search_worm(&a, &mut g),
         "witness-worm" => mode_witness_worm(),
         "witness-imp" => mode_witness_imp(),
+        "witness-asym" => mode_witness_asym(),
+        "witness-noedges" => mode_witness_noedges(),
         m => panic!("unknown mode {}", m),
     }
 }
